@@ -1199,7 +1199,32 @@ fn dec_bank(r: &mut ByteReader) -> BankSpec {
 pub fn decode_case(data: &[u8]) -> (WorldSpec, Vec<Op>) {
     let mut r = ByteReader::new(data);
     let nb = 1 + (r.u8() % 4) as usize;
-    let banks: Vec<BankSpec> = (0..nb).map(|_| dec_bank(&mut r)).collect();
+    let mut banks: Vec<BankSpec> = (0..nb).map(|_| dec_bank(&mut r)).collect();
+    // staked-collateral banks (as in world_strategy)
+    if r.u8() % 8 == 0 && banks.len() > 1 {
+        let mut feed = banks[0].oracle.clone();
+        if feed.kind != 1 {
+            feed = OracleSpec { kind: 1, conf: (feed.mant as u64) / 500, ema_conf: (feed.mant as u64) / 500, ..feed };
+        }
+        banks[0].oracle = feed.clone();
+        banks[0].asset_tag = 1;
+        for b in banks.iter_mut().skip(1) {
+            if r.bool() {
+                let supply = 1_000_000_000 + r.u64() % 2_000_000_000_000_000;
+                let rate_pm = 500 + r.below(2500) as u128;
+                b.staked = Some(crate::world::StakedSpec { supply, stake: ((supply as u128 * rate_pm / 1000) as u64).saturating_add(1_000_000_000) });
+                b.oracle = OracleSpec { kind: 3, ..feed.clone() };
+                b.asset_tag = 2;
+                b.token = 0;
+                b.fee_bps = 0;
+                b.fee_max = 0;
+                b.decimals = 9;
+                b.isolated = false;
+                b.aw_i = b.aw_i.min(1_000_000);
+                b.aw_m = b.aw_m.max(b.aw_i);
+            }
+        }
+    }
     let n_users = 2 + r.u8() % 3;
     let pe = r.bool();
     let spec = WorldSpec {
